@@ -25,21 +25,21 @@ type Item struct {
 }
 
 type PageData struct {
-	Title  string         `json:"title"`
-	Name   string         `json:"name"`
-	N      int            `json:"n"`
-	Flag   bool           `json:"flag"`
-	Off    bool           `json:"off"`
-	Items  []Item         `json:"items"`
-	User   User           `json:"user"`
-	HTML   string         `json:"html"`
-	Cls    string         `json:"cls"`
-	M      map[string]any `json:"m"`
-	Num    float64        `json:"num"`
-	Empty  []string       `json:"empty"`
-	Depth  int            `json:"depth"`
-	Href   string         `json:"href"`
-	Sty    string         `json:"sty"`
+	Title  string          `json:"title"`
+	Name   string          `json:"name"`
+	N      int             `json:"n"`
+	Flag   bool            `json:"flag"`
+	Off    bool            `json:"off"`
+	Items  []Item          `json:"items"`
+	User   User            `json:"user"`
+	HTML   string          `json:"html"`
+	Cls    string          `json:"cls"`
+	M      map[string]any  `json:"m"`
+	Num    float64         `json:"num"`
+	Empty  []string        `json:"empty"`
+	Depth  int             `json:"depth"`
+	Href   string          `json:"href"`
+	Sty    string          `json:"sty"`
 	Cmap   map[string]bool `json:"cmap"`
 	hidden string
 }
@@ -80,6 +80,7 @@ func BuildData(d DataSpec) any {
 		M:   map[string]any{"k1": "v1-" + tag, "k2": "v2-" + tag, "k3": "v3-" + tag},
 		Num: 4.5, Empty: []string{}, Depth: d.Depth, Href: "/p/" + tag + "?a=1&b=2", Sty: "color:green;margin:" + fmt.Sprint(d.Variant) + "px",
 		hidden: "hidden-" + tag,
+		Cmap:   map[string]bool{"active": true, "big": d.Flag, "off": false, "wide": true, "zebra": d.Variant%2 == 0},
 	}
 	switch d.Shape {
 	case "rich":
